@@ -39,7 +39,12 @@ def _entry(rng, fd, allow3=True):
             flags |= b
     closing = rng.choice(["open"] * 8 + ["readlink", "fdinfo", "fdinfo_read"])
     return {"fd": fd, "kind": kind, "pos": rng.choice(POS), "flags": flags, "closing": closing,
-            "extra": rng.choice(["", "mnt_id:\t25\nino:\t1234\n", "mnt_id:\t1\n"])}
+            "extra": rng.choice(["", "mnt_id:\t25\nino:\t1234\n", "mnt_id:\t1\n",
+                                 # a descriptor holding file locks: the kernel appends one many-token line per lock
+                                 "mnt_id:\t25\nino:\t1234\nlock:\t1: FLOCK  ADVISORY  WRITE 4242 fe:00:1234 0 EOF\n",
+                                 "mnt_id:\t25\nino:\t77\nlock:\t1: POSIX  ADVISORY  READ 4242 fe:00:77 0 99\n"
+                                 "lock:\t2: OFDLCK ADVISORY  WRITE -1 fe:00:77 100 EOF\n",
+                                 "mnt_id:\t3\nino:\t9\nlock:\t1: LEASE  ACTIVE    READ  4242 00:2d:9 0 EOF\n"])}
 
 
 def gen_cases(rng, tier):
@@ -90,7 +95,8 @@ def gen_cases(rng, tier):
                 req = 0o200000 if rng.random() < 0.5 else 0      # O_DIRECTORY or plain O_RDONLY
             if kind == "dev":
                 req &= ~0o1000                                      # no O_TRUNC on a device node
-            ents.append({"fd": 300 + i, "kind": kind, "req": req, "pos": rng.choice([0, 1, 4096, 2 ** 31, 2 ** 40, 12345])})
+            ents.append({"fd": 300 + i, "kind": kind, "req": req, "pos": rng.choice([0, 1, 4096, 2 ** 31, 2 ** 40, 12345]),
+                         "lock": rng.choice([None, None, "flock", "posix"])})
         cases.append({"kind": "live", "cls": "live", "ents": ents})
     # raw / malformed fdinfo
     for _ in range(n_tab // 3):
@@ -641,6 +647,12 @@ def _impl_live(case, coq, env, psutil):
                     f.write(b"0123456789")
                 fd = os.open(path, req)
                 os.lseek(fd, e["pos"], os.SEEK_SET)
+                if e.get("lock") == "flock":
+                    import fcntl
+                    fcntl.flock(fd, fcntl.LOCK_EX if req & 3 else fcntl.LOCK_SH)
+                elif e.get("lock") == "posix" and req & 3:
+                    import fcntl
+                    fcntl.lockf(fd, fcntl.LOCK_EX, 10, 0, os.SEEK_SET)
                 if k == "reg_deleted_gone":
                     os.unlink(path)
             elif k == "dir":
